@@ -686,8 +686,8 @@ var stateWriters = []stateWriter{
 		map[string]string{"C01": "a bool option reads the negation of its declared default however often it is passed"}},
 	{"option", "Option", "Aliases", map[string]string{"(*option.Option).SetAlias": "any"},
 		map[string]string{"C05": "the names an abbreviation is matched against are the declared ones", "C17": "the names offered are the declared ones"}},
-	{"option", "Option", "Called", map[string]string{"(*option.Option).SetCalled": "any", "(*getoptions.GetOpt).SetCalled$": "any", "getoptions.parseCLIArgs": "any"},
-		map[string]string{"C06": "Called is true exactly for options met on the command line (or marked by SetCalled / the environment)", "C12": "Called distinguishes command line, environment and default",
+	{"option", "Option", "Called", map[string]string{"(*option.Option).SetCalled": "any", "(*getoptions.GetOpt).SetCalled$": "any", "getoptions.parseCLIArgs": "true"},
+		map[string]string{"C01": "an option met on the command line is Called, whatever follows it", "C06": "Called is true exactly for options met on the command line (or marked by SetCalled / the environment)", "C12": "Called distinguishes command line, environment and default",
 			"C09": "nothing behind the require-order stop marks an option called: only the parser, which stops there, does", "C04": "nothing behind the terminator marks an option called: only the parser, which stops there, does"}},
 	{"option", "Option", "UsedAlias", map[string]string{"(*option.Option).SetCalled": "any", "getoptions.parseCLIArgs": "any"},
 		map[string]string{"C06": "CalledAs reports the spelling the parser met"}},
@@ -801,6 +801,11 @@ func rStateWriters(w *World, r *Report, prop, id string) {
 			case "const":
 				if _, isC := val.(*ssa.Const); !isC {
 					bad = append(bad, name+" stores something other than a constant")
+					pos = w.IPos(in)
+				}
+			case "true":
+				if c, isC := val.(*ssa.Const); !isC || c.Value == nil || c.Value.String() != "true" {
+					bad = append(bad, name+" stores something other than true")
 					pos = w.IPos(in)
 				}
 			}
